@@ -259,6 +259,7 @@ def strat_hist(tier):
         'configs': st.one_of(st.just(names), st.lists(st.sampled_from(names), unique=True, min_size=1, max_size=3)),
         'seed': gen.seed_s,
         'guided': st.booleans(),
+        'continue_after_terminal': st.integers(0, 3),   # how many further steps are taken on a finished episode before resetting
         'actions': st.lists(st.sampled_from([0, 0, 0, 1, 2, 3, 4, 5, 6, 7]), min_size=1, max_size=n),
     })
 
@@ -285,6 +286,9 @@ def oracle_hist(case, ctx):
         total_model = 0.0
         fired = 0
         terminals = 0
+        overtime = 0
+        continued = 0
+        pending = case.get('continue_after_terminal', 0)
         for i, a in enumerate(names):
             r, t = guarded(ctx, f'step {a}', env.step, objs.action(a))
             nd = objs.canon_state(env.state)
@@ -306,12 +310,18 @@ def oracle_hist(case, ctx):
             sd = nd
             if t:
                 terminals += 1
+                overtime = overtime + 1 if exp_t else overtime
+                if pending > 0:
+                    pending -= 1          # keep stepping the finished episode: flags must still be those of each single step
+                    continued += 1
+                    continue
+                pending = case.get('continue_after_terminal', 0)
                 guarded(ctx, 'reset', env.reset)
                 sd = objs.canon_state(env.state)
         if not math.isclose(total, total_model, rel_tol=1e-9, abs_tol=1e-9):
             ctx.fail(f'{config}: return {total} != model return {total_model}', {'kind': 'shipped_reward'})
         ctx.ev.case([config, case['seed'], names], nt=(len(names) >= 10 and (fired > 0 or terminals > 0)),
-                    classes=['cfg:' + config.replace('.yaml', '')] + (['exit_paid'] if fired else []) + (['terminated'] if terminals else []),
+                    classes=['cfg:' + config.replace('.yaml', '')] + (['exit_paid'] if fired else []) + (['terminated'] if terminals else []) + (['continued_after_terminal'] if continued else []),
                     sample={'config': config, 'seed': case['seed'], 'steps': len(names), 'return': total, 'exit_rewards': fired, 'terminals': terminals})
 
 
@@ -327,5 +337,5 @@ CHECKS = [
           required=['terminal', 'parts_on=1']),
     Check('shipped_trajectories', oracle_hist, strategy=strat_hist, examples={'quick': 8, 'thorough': 30},
           rule='21 shipped configurations x seeds x (guided walk to an exit +) generated actions: per-step reward == documented parts with the file parameters, termination == documented, exit part on <=> termination',
-          required=['exit_paid', 'terminated']),
+          required=['exit_paid', 'terminated', 'continued_after_terminal']),
 ]
